@@ -44,23 +44,25 @@ def job_structure(res, n, N, spacing, buckets):
     fft = UFFFT(plans); ex = Exec(mod, snap, RealDom(), {'fftwf_execute': fft, UPDATE_SM: ext_noop}); st = State()
     P = sym_profiles(ex, st, R, n, nb); Z = sym_impedance(ex, st, R, N)
     sc = ex.run1(st, 'e_wakescaling', [R['field']]).retval
-    st = ex.run1(st, 'e_wake', [R['field']]); account(res, ex, mod, [st])
-    got = get_reals(ex, st, st.retval, nb * n)
-    want, train = spec_wake(fft, N, n, nb, buckets, spacing, P, Z, ex.dom.z(sc))
-    def cex(m): return {'replay': 'wake', 'n': n, 'N': N, 'spacing': spacing, 'buckets': list(buckets), 'rho': [mval(m, v) for v in P], 'z': [mval(m, c) for zz in Z for c in zz]}
-    prove(res, 'n=%d N=%d buckets %s spacing %d: wake[b][x] == scaling * c2r( Z_k * r2c(train)_k for k < N/2, 0 above )[bucket_b*spacing + x] with train = profiles placed at bucket*spacing, zero elsewhere (all %d cells)' % (n, N, list(buckets), spacing, nb * n),
-          st.pc, z3.Or(*[a != b for a, b in zip(got, want)]), key='wake-structure', cex_fn=cex)
-    # sees only the non-negative-frequency half of the impedance
-    subs = [(c, z3.Real(str(c) + '_alt')) for k in range(N // 2, N) for c in Z[k]]
-    prove(res, 'n=%d N=%d: wake potential does not depend on impedance samples k >= N/2' % (n, N), st.pc, z3.Or(*[z3.substitute(g, *subs) != g for g in got]), key='wake-upper-half-unused')
-    if N // 2 > 1:
-        witness(res, 'wake term mentions Z_1, every profile cell and no impedance sample above N/2 (N=%d)' % N, [],
-                z3.BoolVal(occurs(got[0], Z[1][0]) and all(occurs(got[0], p) for p in P) and not any(occurs(g, c) for g in got for k in range(N // 2, N) for c in Z[k])))
-    # WakePotentialMap::update hands bunch b's wake to bunch b's kick rows
-    st2 = ex.run1(st, 'e_wpm_update', [R['wpm']]); frc = ex.run1(st2, 'e_force', [R['wpm']]).retval
-    kick = get_reals(ex, st2, frc, nb * n); account(res, ex, mod, [st2])
-    prove(res, 'n=%d N=%d buckets %s: WakePotentialMap::update copies the wake potential of bunch b, cell x into displacement row b*n+x (all %d)' % (n, N, list(buckets), nb * n), st2.pc,
-          z3.Or(*[a != b for a, b in zip(kick, want)]), key='wake-kick-copy', cex_fn=cex)
+    # a wakePotential() that decides on the data (e.g. skips bins of an impedance that is exactly zero) forks: every path meets the same obligations
+    for st in run_paths(ex, st, 'e_wake', [R['field']]):
+        st.frames = []; account(res, ex, mod, [st])
+        got = get_reals(ex, st, st.retval, nb * n)
+        want, train = spec_wake(fft, N, n, nb, buckets, spacing, P, Z, ex.dom.z(sc))
+        def cex(m): return {'replay': 'wake', 'n': n, 'N': N, 'spacing': spacing, 'buckets': list(buckets), 'rho': [mval(m, v) for v in P], 'z': [mval(m, c) for zz in Z for c in zz]}
+        prove(res, 'n=%d N=%d buckets %s spacing %d: wake[b][x] == scaling * c2r( Z_k * r2c(train)_k for k < N/2, 0 above )[bucket_b*spacing + x] with train = profiles placed at bucket*spacing, zero elsewhere (all %d cells)' % (n, N, list(buckets), spacing, nb * n),
+              st.pc, z3.Or(*[a != b for a, b in zip(got, want)]), key='wake-structure', cex_fn=cex)
+        # sees only the non-negative-frequency half of the impedance
+        subs = [(c, z3.Real(str(c) + '_alt')) for k in range(N // 2, N) for c in Z[k]]
+        prove(res, 'n=%d N=%d: wake potential does not depend on impedance samples k >= N/2' % (n, N), st.pc, z3.Or(*[z3.substitute(g, *subs) != g for g in got]), key='wake-upper-half-unused')
+        if N // 2 > 1:
+            witness(res, 'wake term mentions Z_1, every profile cell and no impedance sample above N/2 (N=%d)' % N, [],
+                    z3.BoolVal(occurs(got[0], Z[1][0]) and all(occurs(got[0], p) for p in P) and not any(occurs(g, c) for g in got for k in range(N // 2, N) for c in Z[k])))
+        # WakePotentialMap::update hands bunch b's wake to bunch b's kick rows
+        st2 = ex.run1(st, 'e_wpm_update', [R['wpm']]); frc = ex.run1(st2, 'e_force', [R['wpm']]).retval
+        kick = get_reals(ex, st2, frc, nb * n); account(res, ex, mod, [st2])
+        prove(res, 'n=%d N=%d buckets %s: WakePotentialMap::update copies the wake potential of bunch b, cell x into displacement row b*n+x (all %d)' % (n, N, list(buckets), nb * n), st2.pc,
+              z3.Or(*[a != b for a, b in zip(kick, want)]), key='wake-kick-copy', cex_fn=cex)
 
 FFT_PREP = ['_ZN3fft10prepareFFTEmPfPA2_f', '_ZN3fft10prepareFFTEmPA2_fPf']
 def job_scaling(res, n, N, spacing, buckets):
@@ -123,13 +125,17 @@ def main(tier):
     else:
         cfgs = [(4, N, 5, b) for N in (8, 9, 10, 11, 12, 16) for b in ((0,), (1,), (0, 1), (1, 0)) if max(b) * 5 + 4 <= N]
         cfgs += [(3, 12, 4, (0, 2)), (3, 11, 3, (2, 0, 1)), (3, 12, 3, (0, 1, 3)), (5, 16, 5, (1, 2)), (5, 20, 6, (0, 2)), (5, 17, 6, (2, 0)), (6, 24, 6, (3, 1))]
+    import c18
     jobs = [(job_structure, c) for c in cfgs] + [(job_scaling, c) for c in cfgs[:3]]
+    # the structure above is that of a call on a fresh object; that a later call computes the same (also where FFTW's c2r plan uses its input as scratch space, N = 24, and for an impedance table ending below the top frequency) is the history obligation
+    jobs += [(c18.job_history, (4, 24, 0, (0,), 2, 400)), (c18.job_history, (4, 24, 5, (1, 0), 1, 0))]
     chk.bounds = {'configurations (n, N, spacing, bucket numbers)': cfgs, 'symbolic': 'every profile value of every bunch, every complex impedance sample (all N), machine parameters in the scaling obligation'}
     chk.assumptions = ['fftwf_execute = FFTW\'s documented r2c/c2r transforms, represented as uninterpreted functions of the whole input buffer (the specification uses the same functions: the obligation is on which cells feed them, which samples multiply which bins, what is read back and the scale)',
                        'linearity in the profiles and the shift property are properties of the DFT itself and follow from this structure; FFTW\'s numerical accuracy is outside the claim',
                        'complex multiply is the textbook formula (the NaN fallback __mulsc3 is unreachable for finite reals)', 'padded length / spacing computed in main: C17', 'OpenCL/clFFT path outside the claim']
     chk.stubs = ['fftwf_execute: uninterpreted', 'fft::prepareFFT / fftwf_alloc_*: handle + 0xA5-filled memory (scaling obligation only)', 'KickMap::updateSM no-op in the WakePotentialMap::update obligation']
-    chk.replayer = replayer(bld)
+    _r6 = replayer(bld); _r18 = c18.replayer(bld)
+    chk.replayer = lambda path, c: (_r18 if c.get('replay') == 'history' else _r6)(path, c)
     chk.add(run_jobs(jobs, budget=600))
     chk.finish()
 
